@@ -17,6 +17,32 @@ from flexstack.btp.router import Router as BTPRouter
 from flexstack.btp.service_access_point import BTPDataRequest
 
 
+import copy as _copy
+import types as _types
+
+# btp.Router keeps its frozen callback table in a MappingProxyType, which deepcopy cannot handle
+_copy._deepcopy_dispatch[_types.MappingProxyType] = lambda x, memo: _types.MappingProxyType(_copy.deepcopy(dict(x), memo))
+
+
+
+
+def share_frozen_dataclasses():
+    """Frozen dataclasses of flexstack are immutable values: snapshots may share them (big deepcopy speed-up).
+    Purely a harness-side optimisation: the replay cross-check of the explorer validates snapshot fidelity."""
+    import dataclasses
+    import sys
+    n = 0
+    for name, mod in list(sys.modules.items()):
+        if not name.startswith("flexstack.") or mod is None:
+            continue
+        for obj in list(vars(mod).values()):
+            if isinstance(obj, type) and dataclasses.is_dataclass(obj) and obj.__module__.startswith("flexstack.") \
+                    and obj.__dataclass_params__.frozen and "__deepcopy__" not in vars(obj):
+                obj.__deepcopy__ = lambda self, memo: self
+                n += 1
+    return n
+
+
 def iso(t: float) -> str:
     return datetime.datetime.fromtimestamp(t, datetime.timezone.utc).strftime("%Y-%m-%dT%H:%M:%S.%f")[:-3] + "Z"
 
@@ -154,3 +180,6 @@ class Net(World):
     def call(self, fn, *a, **k):
         with self:
             return fn(*a, **k)
+
+
+share_frozen_dataclasses()
